@@ -237,30 +237,33 @@ namespace Givaro {
     {
         // write(cerr << "In factor P:", P) << endl;
         // Square free ?
-        Rep D; this->gcd(W,diff(D,P),P);
+        Rep D; this->gcd(W,this->diff(D,P),P);
         Degree d, dP;
         // write(cerr << "In factor P':", D) << "(deg: " << degree(d,D) << ")" << endl;
         // write(cerr << "In factor P^P':", W) << "(deg: " << degree(d,W) << ")" << endl;
 
-        if (this->degree(d,W) > 0) return W;
+        this->degree(dP,P);
+        // gcd(P',P) == P when P' == 0 (P is a p-th power) : not a proper factor, found below
+        if ((this->degree(d,W) > 0) && (d < dP)) return W;
         // Distinct degree free ?
-        Rep Unit, G1; init(Unit, Degree(1));
+        Rep Unit, G1; this->init(Unit, Degree(1));
         // write(cerr << "In factor U:", Unit) << endl;
-        W.copy(Unit);
-        this->degree(dP,P); Degree dPo = (dP/2);
+        this->assign(W,Unit);
+        Degree dPo = (dP/2);
         for(Degree dp = 1; dp <= dPo; ++dp) {
             // write(cerr << "In factor W:(deg: " << degree(d,W) << "):", W) << endl;
-            this->powmod(W, D.copy(W), MOD, P);
-            this->gcd (G1, sub(D,W,Unit), P) ;
+            this->assign(D,W);
+            this->powmod(W, D, MOD, P);
+            this->gcd (G1, this->sub(D,W,Unit), P) ;
             Degree dG1; this->degree(dG1,G1);
             if ( dG1 > 0 ) {
                 if (dG1 < dP)
-                    return W.copy(G1);
+                    return this->assign(W,G1);
                 else
                     return SplitFactor(W,G1,dp,MOD);
             }
         }
-        return W.copy(P);
+        return this->assign(W,P);
     }
 
 } // Givaro
